@@ -212,6 +212,32 @@ def runSchedUnrepaired (env : Env Net Pat IP) (pol : Policy Net Pat) (inp : Inpu
   | [] => w
   | i :: rest => runSchedUnrepaired env pol inp rs (stepUnrepaired env pol inp rs w i) rest
 
+/-! ### the dial-back of connecting transports (`handleConnectingTpReg`)
+
+For a registration of a *connecting* transport (DTLS-style: the station reaches out to the client) the
+last statement of `ingestRegistration`, after `AddRegistration`, starts a goroutine that connects to the
+client and then runs `Proxy(reg, conn)` on **the worker's own object** — not on what the registry stores.
+Whenever that goroutine gets to `net.Dial("tcp", reg.Covert)` it reads the `Covert` field of that object
+as it is then. -/
+
+/-- the dial-backs a schedule launches: worker `i` launches one, for object `i`, in the segment that begins
+at `beforeRegister` (`AddRegistration` … `handleConnectingTpReg`), if its transport is a connecting one -/
+def launched (connecting : Nat → Bool) (env : Env Net Pat IP) (pol : Policy Net Pat) (inp : Inputs)
+    (rs : Resolver IP) (w : World) : List Nat → List Nat
+  | [] => []
+  | i :: rest =>
+    (if w.pc i = .beforeRegister ∧ connecting i = true then [i] else []) ++
+      launched connecting env pol inp rs (step env pol inp rs w i) rest
+
+/-- the same with the call moved in front of the covert admission step (right after the registration is
+tracked): kept to show that the model can tell the two orders apart -/
+def launchedEarly (connecting : Nat → Bool) (env : Env Net Pat IP) (pol : Policy Net Pat) (inp : Inputs)
+    (rs : Resolver IP) (w : World) : List Nat → List Nat
+  | [] => []
+  | i :: rest =>
+    (if w.pc i = .afterTrack ∧ connecting i = true then [i] else []) ++
+      launchedEarly connecting env pol inp rs (step env pol inp rs w i) rest
+
 /-- before any worker ran: every object holds its client's raw covert string, nothing is tracked -/
 def World.init (raw : Nat → String) (cursor : Nat) : World :=
   { covertOf := raw, pc := fun _ => .start, store := none, cursor := cursor }
